@@ -34,6 +34,7 @@ func init() {
 
 type bkOpts struct {
 	kv, mm, delta bool
+	fixkey        bool
 	conc          int
 	lblk          int // DiskBlockSize while loading (0 = default): small values make the readers refill inside frames
 }
@@ -42,12 +43,13 @@ func (o *bkOpts) flags(fs *flag.FlagSet) {
 	fs.BoolVar(&o.kv, "kv", false, "")
 	fs.BoolVar(&o.mm, "mm", false, "")
 	fs.BoolVar(&o.delta, "delta", false, "")
+	fs.BoolVar(&o.fixkey, "fixkey", false, "keys of one length")
 	fs.IntVar(&o.conc, "conc", 2, "")
 	fs.IntVar(&o.lblk, "lblk", 0, "DiskBlockSize used by LoadFromDisk")
 }
 
 func (o *bkOpts) cfg(writers int) nh.Cfg {
-	return nh.Cfg{KV: o.kv, MM: o.mm, Delta: o.delta, Writers: writers}
+	return nh.Cfg{KV: o.kv, MM: o.mm, Delta: o.delta, Writers: writers, FixKey: o.fixkey}
 }
 
 // ---------------------------------------------------------------- bk-gen (runs as a child process)
